@@ -1,0 +1,8 @@
+//go:build !verif
+// +build !verif
+
+package decoder
+
+// Verification hook (see verif_on.go). With the verif build tag off it is empty and inlined away.
+
+func VerifDecoderSlot(_ uintptr, _ uintptr) {}
